@@ -54,6 +54,7 @@ class FCtx(object):
         self.inlined = list(self.ex.inlined)
         # spelling-independent forms (string building, sort keys) for every term the rules look at
         self._fold_local_dicts()
+        self._fold_patched_mappings()
         # Event.raw/raw_target/raw_guards keep the gated (path-sensitive) merges of if statements for T.select(); the default
         # view has them flattened to phi
         for ev in self.events:
@@ -99,8 +100,18 @@ class FCtx(object):
     def _fold_version_operands(self, model):
         """``version_tuple < VERSION``: a module constant compared with a version is its value"""
         module = self.module
+        cls_, sname = self.cls, None
+        if cls_ is not None and self.node.args.args and self.node.name not in cls_.staticmethods:
+            sname = self.node.args.args[0].arg
 
         def fn(x):
+            if x[0] == "boolop":
+                return T.simplify_boolop(x)
+            if x[0] == "cmp" and len(x[1]) == 1 and len(x[2]) == 2 and x[1][0] in ("is", "is not") and ("const", None) in x[2] and sname:
+                o = [y for y in x[2] if y != ("const", None)]
+                if len(o) == 1 and o[0][0] == "attr" and o[0][1] == ("param", sname) and cls_.lookup(o[0][2]) is not None \
+                        and o[0][2] not in cls_.lookup(o[0][2])[0].properties:
+                    return ("const", x[1][0] == "is not")        # a bound method is not None
             if x[0] == "cmp" and len(x[1]) == 1 and len(x[2]) == 2:
                 a, b = x[2]
                 for i, (p_, q_) in enumerate(((a, b), (b, a))):
@@ -162,6 +173,84 @@ class FCtx(object):
             ev.guards = tuple((T.subst(g[0], fn), g[1]) for g in ev.guards)
             ev.raw_guards = tuple((T.subst(g[0], fn), g[1]) for g in ev.raw_guards)
         self.ex.loop_guards = dict((k, tuple((T.subst(g[0], fn), g[1]) for g in v)) for k, v in self.ex.loop_guards.items())
+
+    def _fold_patched_mappings(self):
+        """a local mapping obtained from a call (``result = match.groupdict()``) that is only read with literal keys and
+        patched by ``result[<literal>] = v`` stores: every read ``result[k]`` becomes the value it denotes at that point - the
+        mapping's own entry, overridden by the stores of that key executed before (conditional stores give conditional
+        expressions).  Any other use of the local leaves it alone."""
+        locs = {}
+        for ev in self.events:
+            if ev.kind == "bind" and ev.value is not None and ev.value[0] == "call" and ev.value[1][0] == "attr" \
+                    and ev.value[1][2] == "groupdict" and not ev.value[2] and not ev.value[3] and not ev.loops:
+                locs.setdefault(ev.value, (ev.value, ev))
+        for key, (L, b) in locs.items():
+            init = L
+
+            def is_L(x):
+                return x == key
+
+            def lookup(x):
+                return x[0] == "sub" and is_L(x[1]) and x[2][0] == "const"
+
+            def other_use(t):
+                if lookup(t):
+                    return False
+                if is_L(t):
+                    return True
+                return any(other_use(c) for c in T.children(t))
+            stores, ok = [], True
+            for ev in self.events:
+                if ev is b or ev.seq <= b.seq:
+                    continue
+                if ev.kind == "call" and ev.value == init:
+                    continue
+                if ev.kind == "store" and ev.target is not None and lookup(ev.target):
+                    if other_use(ev.value) or ev.loops or any(g[0][0] == "exc" for g in ev.guards):
+                        ok = False
+                    stores.append(ev)
+                    continue
+                for t in [ev.value, ev.target] + [g[0] for g in ev.guards] + [l[1] for l in ev.loops]:
+                    if t is not None and other_use(t):
+                        ok = False
+            if not ok or not stores:
+                continue
+
+            orig = dict((id(ev), tuple(ev.guards)) for ev in self.events)
+
+            def make(reader):
+                rg = orig[id(reader)]
+
+                def fn(x):
+                    if not lookup(x):
+                        return None
+                    val = ("sub", init, x[2])
+                    handler = [i for i, g in enumerate(rg) if g[0][0] == "exc"]
+                    for st in stores:
+                        if st.seq >= reader.seq or st.target[2] != x[2]:
+                            continue
+                        sg = orig[id(st)]
+                        if handler and tuple(sg) == tuple(rg[:handler[0]]):
+                            continue        # a store of the try body whose exception is being handled: it may not have happened
+                        # conditions of the store beyond those the reader itself is under
+                        n = 0
+                        while n < len(sg) and n < len(rg) and sg[n] == rg[n]:
+                            n += 1
+                        if n < len(sg) and n < len(rg) and sg[n][0] == rg[n][0] and sg[n][1] != rg[n][1]:
+                            continue        # the other branch of a test the reader is under: not on the reader's path
+                        conds = tuple(g[0] if g[1] else ("unary", "not", g[0]) for g in st.guards[n:])
+                        val = st.value if not conds else ("ifexp", conds[0] if len(conds) == 1 else ("boolop", "and", conds), st.value, val)
+                    return val
+                return fn
+            for ev in self.events:        # in execution order: a store's own value and conditions read the mapping as it was
+                if ev.seq <= b.seq:
+                    continue
+                fn = make(ev)
+                if ev.value is not None:
+                    ev.value = T.subst(ev.value, fn)
+                if ev.target is not None and ev not in stores:
+                    ev.target = T.subst(ev.target, fn)
+                ev.guards = tuple((T.subst(g[0], fn),) + tuple(g[1:]) for g in ev.guards)
 
     def _fold_local_dicts(self):
         """lookups with a literal key in a local dict that starts as a constant table and is only ever changed by
